@@ -8,7 +8,7 @@ CONSTANTS
   FixD6 = TRUE
   FixD8 = TRUE
   Debug = FALSE
-  MaxB = 256
+  MaxB = 128
   ArgMode = "boundary"
   InitCaps = {0, 3, 4, 28}
 SPECIFICATION MCSpec
